@@ -107,6 +107,17 @@ check('C12', E2,
       'event patterns are atomic tokens; with a TIMEOUT key only output and pattern responses are judged; process table simulated',
       'DESIGN.md 3 C12')
 
+check('C16', E2 + ' + scripted REPL model bound to real bash',
+      'exhaustive enumeration of command sequences (length <= 3) with a deviation-bounded (<= 2) DFS over chunk-cut placements in the REPL output (incl. inside the prompt string); conformance replay of every sequence <= 2 on real bash',
+      'The real REPLWrapper drives a harness spawn whose peer is a line-oriented REPL model (prompt, continuation prompt, SIGINT cancels); each run_command must return exactly that command\'s modelled output, ValueError for incomplete input, later commands still attributed correctly.',
+      'REPL model (no echo) bound to reality by real-bash replays (TIMEOUT = inconclusive); cut deviation bound 2; awaited form covered in C14',
+      'DESIGN.md 3 C16')
+check('C17', E2 + ' + fake ssh server state machine',
+      'complete enumeration of server dialogues (<= 4 events over 12 event kinds) x shell flavours x login option combinations x mode, on the virtual clock, with a transcript oracle',
+      'The real pxssh.login()/prompt() talk to a deterministic server that records what it printed and received in order: password at most once and only right after a password/passphrase prompt, yes only after the host-key question, True only in shell state with the unique prompt set (then prompt() delimits two commands exactly), otherwise a pexpect exception within the configured timeouts.',
+      'server is a model (no echo; one of sh/csh/zsh prompt syntaxes); "password prompt" = output matching the password regex; timeouts virtual',
+      'DESIGN.md 3 C17')
+
 NOT_BUILT = {}
 
 
